@@ -25,6 +25,7 @@ def handle (line : String) : String :=
   | "dq" :: ts => c17Line ts
   | "pipe" :: ts => pipeLine ts
   | "pipespec" :: ts => pipeSpecLine ts
+  | "pipemaps" :: ts => pipeMapsLine ts
   | "evpath" :: ts => c19Line ts
   | "winrun" :: ts => winRunLine ts
   | "winemit" :: ts => winEmitLine ts
